@@ -591,6 +591,9 @@ var opNames = map[Op]string{OpAdd: "+", OpSub: "-", OpMul: "*", OpDiv: "div", Op
 
 // smtBody prints the defining expression of a non-leaf term over child names.
 func smtBody(t *Term) string {
+	if t.op == OpUF && len(t.args) == 0 {
+		return "|" + t.name + "|"
+	}
 	var sb strings.Builder
 	sb.WriteByte('(')
 	if t.op == OpUF {
